@@ -152,7 +152,13 @@ def build_args(proc, val, dom=None, override_values=None):
         bt = t.basetype()
         buf = Buffer(tot, nm, bt, is_arg=True)
         for f in range(tot):
-            raw = fill_value(fill, nm, f, bt, val.get("plain", False)) if override_values is None else override_values(nm, f)
+            data = val.get("data")
+            if data is not None and nm in data and data[nm]:
+                raw = data[nm][f % len(data[nm])]
+            elif override_values is not None:
+                raw = override_values(nm, f)
+            else:
+                raw = fill_value(fill, nm, f, bt, val.get("plain", False))
             buf.data[f] = dom.from_input(raw, bt)
         v = View(buf, off, st, shape, k == "window")
         env[fa.name] = v
